@@ -369,3 +369,49 @@ Proof. reflexivity. Qed.
 Example mux_valid_cut_rejects_big_frame :
   valid_cut 3 10 [EvF (dframe 1 [1; 2; 3; 4]%N)] = false.
 Proof. reflexivity. Qed.
+
+(* ============================================================================
+   CONCURRENT WRITERS on one secured connection (SpecCW.v).  secureSession.Write
+   holds the write lock for the whole call, so Writes are atomic w.r.t. each
+   other: for every set of writers, every list of Write sizes per writer (any
+   sizes, in particular more than one frame) and every order in which the
+   writers win the lock, (1) the monitor that judges the delivered stream of the
+   real sessions ("a sequence of WHOLE writes, each writer's in its own order")
+   accepts the model's delivered stream, and (2) that stream is the Noise
+   model's delivery of the Writes in lock order, to which the headline theorem
+   applies: every byte at its position, nothing twice, nothing skipped.
+   ============================================================================ *)
+From Verif Require c02.SpecCW c02.Proofs_CW.
+
+Theorem c02_noise_concurrent_writes : forall writers sched bls,
+  Forall (Forall (fun l => (1 <= l)%N)) writers ->
+  SpecCW.whole_run (SpecCW.st0 writers) (SpecCW.cw_runs (SpecCW.st0 writers) sched)
+    = Some (SpecCW.cw_final (SpecCW.st0 writers) sched) /\
+  holds (total_of (map N.to_nat (SpecCW.cw_order (SpecCW.st0 writers) sched))) false
+        (model_trace (map N.to_nat (SpecCW.cw_order (SpecCW.st0 writers) sched)) None true bls) = true.
+Proof.
+  intros writers sched bls H. split.
+  - apply Proofs_CW.whole_run_model. apply Proofs_CW.pos_st0. exact H.
+  - apply holds_untampered.
+Qed.
+Print Assumptions c02_noise_concurrent_writes.
+
+(* non-vacuity: two writers, one two-frame Write each.  Whole writes in either
+   order are accepted; frames of the two Writes alternating on the wire (what a
+   per-frame lock gives) are rejected; so is a Write cut short *)
+Example cw_accepts_whole_writes :
+  SpecCW.whole_run (SpecCW.st0 [[131038]; [131038]]%N) [(1, 0%N, 131038%N); (0, 0%N, 131038%N)] <> None.
+Proof. vm_compute. discriminate. Qed.
+Example cw_rejects_interleaved_frames :
+  SpecCW.whole_run (SpecCW.st0 [[131038]; [131038]]%N)
+    [(0, 0%N, 65519%N); (1, 0%N, 65519%N); (0, 65519%N, 65519%N); (1, 65519%N, 65519%N)] = None.
+Proof. vm_compute. reflexivity. Qed.
+Example cw_monitor_rejects_interleaved_case :
+  SpecCW.monitor8 [8; 0; 2; 1; 131038; 1; 131038; 4; 0; 0; 65519; 1; 0; 65519; 0; 65519; 65519; 1; 65519; 65519; 1]%Z <> [].
+Proof. vm_compute. discriminate. Qed.
+Example cw_monitor_accepts_good_case :
+  SpecCW.monitor8 [8; 0; 2; 2; 16; 131038; 1; 24; 3; 0; 0; 16; 1; 0; 24; 0; 16; 131038; 1]%Z = [].
+Proof. vm_compute. reflexivity. Qed.
+Example cw_monitor_rejects_missing_write :
+  SpecCW.monitor8 [8; 0; 2; 1; 16; 1; 24; 1; 0; 0; 16; 1]%Z <> [].
+Proof. vm_compute. discriminate. Qed.
